@@ -178,7 +178,7 @@ def c03_configs(tier):
     return [
         dict(name="layout", leaf=["int8", "int32", "int64", "struct{}"], emb=["val", "ptr"], names="pos", maxfields=3, maxdepth=3,
              maxtotal=6, boundary=True, modulus=50),
-        dict(name="palette", leaf=["bool", "int16", "string", "[0]int64", "[3]int8", "[]byte", "any", "*int", "float64", "float32", "complex128"], emb=["val"], names="uniq",
+        dict(name="palette", leaf=["bool", "int16", "string", "[0]int64", "[3]int8", "[]byte", "any", "*int", "float64", "float32", "complex128", "fmt.Stringer"], emb=["val"], names="uniq",
              maxfields=3, maxdepth=2, maxtotal=4, modulus=25),
         dict(name="names", leaf=["int8", "int16"], emb=["val", "ptr"], names="pool", tags="none", maxfields=3, maxdepth=3,
              maxtotal=4, modulus=8),
@@ -323,7 +323,7 @@ def optics_configs(tier, prop):
     return [
         dict(name="layout", leaf=["int8", "int32", "int64", "struct{}"], emb=["val", "ptr"], names="pos", maxfields=3, maxdepth=3,
              maxtotal=6, boundary=True, modulus=25),
-        dict(name="palette", leaf=["bool", "int16", "string", "[0]int64", "[3]int8", "[]byte", "any", "*int", "float64", "float32", "complex128"], emb=emb, names="uniq",
+        dict(name="palette", leaf=["bool", "int16", "string", "[0]int64", "[3]int8", "[]byte", "any", "*int", "float64", "float32", "complex128", "fmt.Stringer"], emb=emb, names="uniq",
              maxfields=3, maxdepth=2, maxtotal=4, modulus=60),
         dict(name="names", leaf=["int8"], emb=["val", "ptr"], names="pool", tags="all", maxfields=3, maxdepth=3,
              maxtotal=3, modulus=40),
@@ -517,7 +517,7 @@ def check_c04(run, cases=None):
             collect(run, n, p, recs, byid, stats, "optics")
     run.notes["composed_optics_compiled"] = ninst
     run.notes["composed_optics_by_kind"] = dict(sorted(kinds.items()))
-    for k in ("optics-lens", "optics-join", "optics-bimap", "optics-getter", "optics-setter", "optics-shape", "morphism-lists", "scripts", "script-steps"):
+    for k in ("optics-lens", "optics-join", "optics-bimap", "optics-getter", "optics-setter", "optics-shape", "morphism-lists", "morphism-lists-wrapped", "morphism-lists-nested", "scripts", "script-steps"):
         run.notes[k.replace("-", "_") + "_executed"] = stats.get(k, 0)
     run.notes["transitions_executed"] = stats.get("transitions", 0)
     run.traces += stats.get("transitions", 0) + stats.get("scripts", 0)
